@@ -38,6 +38,12 @@ def gen(tier, rng, harness=None):
         if name.startswith(("numbering.", "uint.md-id-use")):
             lines.append("!mod.keeps %s %s" % (hx("\x1f".join(frags or [])), hx(text)))
             lines.append("!mod.closure - %s" % hx(text))
+    # every module of the catalogue (one construct each: every specialised metadata node with references, numbered DIExpressions, attachments, call-site
+    # metadata operands, constant expressions …): each reference of the parsed module must be the listed definition
+    from . import regen
+    for name, text, frags in catalog.all_entries(regen.enum_table(harness)):
+        if not name.startswith(("numbering.", "uint.md-id-use")):
+            lines.append("!mod.closure - %s" % hx(text))
     # an explicit ID that reads as zero at a position that is not the first unnamed value (any spelling: `%0`, `%00`, `00:`) must be rejected, not renumbered
     for kind, text in localgen.zero_spellings():
         lines.append("!mod.mustfail - %s" % hx(text))
